@@ -94,7 +94,7 @@ class RefCalc:
                     if x[0] == 'op' and x[1] not in ('+', '-', '*', '>', '<',
                                                      '=', '>=', '<=', '<>'):
                         return False
-                    if x[0] in ('raw', 'vol', 'vn', 'arr'):
+                    if x[0] in ('raw', 'vol', 'vn', 'arr', 'un'):
                         return False
         return True
 
